@@ -21,6 +21,7 @@ from fractions import Fraction
 
 from core import Result, ddmin, exc_name, hexs, parallel_map
 from gen import g4v1
+from corr import cli_annotator
 
 TMP = None
 
@@ -734,6 +735,8 @@ def run(ctx):
         os.rmdir(tmpdir())
     except OSError:
         pass
+    # the command-line tool as an observation point (harness/corr/cli_annotator.py)
+    cli_annotator.judge(res, "C08", cli_annotator.evaluate(ctx))
     return res
 
 
@@ -811,6 +814,8 @@ def eval_one(ctx, inp):
 
 
 def replay(ctx, data):
+    if cli_annotator.is_cli(data.get("input")):
+        return cli_annotator.replay_cli("C08", data["input"])
     res, lines = eval_one(ctx, data["input"])
     for l in lines:
         print(l)
@@ -821,6 +826,8 @@ def replay(ctx, data):
 
 
 def shrink(ctx, failure):
+    if cli_annotator.is_cli(failure.get("input")):
+        return failure
     inp = failure["input"]
     sig = failure["signature"]
     if "records" not in inp:
